@@ -322,6 +322,14 @@ pub fn order_check(ins: &[In], outs: &[OutEv], is_th: &dyn Fn(usize) -> bool, cl
 
 // ------------------------------------------------------------------ single tap-hold key: lockstep with the model
 
+/// validation aid: with KV_C05_NO_MODEL=1 the model comparison is switched off, so that a seeded break shows
+/// whether the model-free stream invariants fire on their own (never set in registered runs)
+fn no_model() -> bool {
+    static V: std::sync::OnceLock<bool> = std::sync::OnceLock::new();
+    *V.get_or_init(|| std::env::var("KV_C05_NO_MODEL").map(|v| v == "1").unwrap_or(false))
+}
+
+
 struct Lock {
     p: P,
     sim: Sim,
@@ -363,7 +371,7 @@ impl Lock {
         if !m.is_empty() {
             self.mtrace.push((t, m.clone()));
         }
-        if k != m {
+        if k != m && !no_model() {
             return Some(Bad { sig: format!("C05:I3:{}", classify(&k, &m)), what: format!("tick {t}: kanata wrote [{}], the tap-hold model expects [{}]", fmt_tick(&k), fmt_tick(&m)) });
         }
         None
